@@ -501,8 +501,9 @@ type world struct {
 	qobs       map[int]string
 	clamped    map[int]map[uint64]bool // per query: blocks cut out by a clamped pointer lookup
 	allocBomb  map[int]string          // per query: stopped before a wrapped-around allocation
+	startedStale bool // see startFM
 	maxTarget  uint64 // highest target head handed to the indexer since it was last known idle
-	pulledDown map[uint64]bool // blocks that became "first indexed block" by the range being pulled down
+	pulledDown map[uint64]uint32 // blocks that became "first indexed block" by the range being pulled down -> MapsFirst+1 at that moment
 }
 
 func (w *world) fail(v *simcore.Violation) {
@@ -910,6 +911,11 @@ const crashKey = "crash:indexer-iterates-past-shortened-head"
 
 func (w *world) startFM(view *filtermaps.ChainView) {
 	w.maxTarget = max(w.maxTarget, w.head().number)
+	// signature of a recorded finding: the persisted index says "head indexed" for an older,
+	// lower head than the view the indexer is started with
+	w.mu.Lock()
+	w.startedStale = w.haveRange && w.lastRange.HeadIndexed && w.head().number >= w.lastRange.BlocksAfterLast
+	w.mu.Unlock()
 	cfg := filtermaps.Config{History: w.history, Disabled: w.p.Disabled, HashScheme: w.p.HashScheme}
 	fm, err := filtermaps.NewFilterMaps(w.indexKV, view, 0, 0, w.params, cfg)
 	if err != nil {
@@ -925,7 +931,7 @@ func (w *world) startFM(view *filtermaps.ChainView) {
 		rs, ok, err := rawdb.ReadFilterMapsRange(w.indexKV.Mem())
 		w.mu.Lock()
 		if err == nil && ok && w.haveRange && rs.BlocksFirst < w.lastRange.BlocksFirst && rs.BlocksFirst == rs.BlocksAfterLast {
-			w.pulledDown[rs.BlocksFirst] = true
+			w.pulledDown[rs.BlocksFirst] = rs.MapsFirst + 1
 		}
 		w.lastRange, w.haveRange = rs, err == nil && ok
 		w.mu.Unlock()
@@ -1240,8 +1246,10 @@ func (w *world) runQuery(qid int, spec QuerySpec, phase string) {
 			marked := w.pulledDown[l.BlockNumber]
 			r, have := w.lastRange, w.haveRange
 			w.mu.Unlock()
-			if marked && have && l.BlockNumber == r.BlocksFirst && r.BlocksAfterLast > r.BlocksFirst {
-				if ptr, err := rawdb.ReadBlockLvPointer(w.indexKV.Mem(), l.BlockNumber); err == nil && uint32(ptr>>w.p.LogValuesPerMap) < r.MapsFirst {
+			// (judged against the map range at the moment the block was marked: a later tail
+			// re-index may have repaired the state after this query's search)
+			if marked != 0 && have {
+				if ptr, err := rawdb.ReadBlockLvPointer(w.indexKV.Mem(), l.BlockNumber); err == nil && uint32(ptr>>w.p.LogValuesPerMap) < marked-1 {
 					v.Key = "logs-missing:first-indexed-block-starts-in-unindexed-map"
 					v.Msg += fmt.Sprintf(" (indexed range: blocks %d..%d, maps %d..%d; block %d starts at log value %d = map %d, which is unindexed)",
 						r.BlocksFirst, r.BlocksAfterLast-1, r.MapsFirst, r.MapsAfterLast-1, l.BlockNumber, ptr, ptr>>w.p.LogValuesPerMap)
@@ -1329,7 +1337,16 @@ func (w *world) checkIdle(where string) {
 	case !r.Initialized || !r.HeadIndexed:
 		w.fail(simcore.Violf("idle-head-not-indexed", "%s: head not indexed", desc))
 	case r.BlocksAfterLast != head+1:
-		w.fail(simcore.Violf("idle-head-not-indexed", "%s: indexed blocks end at %d, want %d", desc, r.BlocksAfterLast, head+1))
+		if w.startedStale && r.BlocksAfterLast < head+1 {
+			// Observation, not a violation (coordinator's decision: C40 is about query results,
+			// which stay right here through the unindexed fallback): the indexer was started on a
+			// persisted index marked head-indexed for a lower head; NewFilterMaps takes the
+			// initial view as indexedView, so targetHeadIndexed() holds and nothing is rendered
+			// until the next SetTarget.
+			w.probe("idle-but-head-unindexed-after-start-with-advanced-head")
+		} else {
+			w.fail(simcore.Violf("idle-head-not-indexed", "%s: indexed blocks end at %d, want %d", desc, r.BlocksAfterLast, head+1))
+		}
 	case r.BlocksFirst > tail:
 		w.fail(simcore.Violf("idle-tail-not-covered", "%s: first indexed block %d is above the tail target %d", desc, r.BlocksFirst, tail))
 	}
@@ -1354,7 +1371,7 @@ func (w *world) checkIdle(where string) {
 func Run(t *testing.T, pl any) *simcore.Result {
 	p := pl.(*Plan)
 	res := simcore.NewResult()
-	w := &world{p: p, res: res, getLogs: map[int]int{}, obs: simcore.NewHash(), lastFirst: -1, history: p.History, pulledDown: map[uint64]bool{}, qobs: map[int]string{}, clamped: map[int]map[uint64]bool{}, allocBomb: map[int]string{}}
+	w := &world{p: p, res: res, getLogs: map[int]int{}, obs: simcore.NewHash(), lastFirst: -1, history: p.History, pulledDown: map[uint64]uint32{}, qobs: map[int]string{}, clamped: map[int]map[uint64]bool{}, allocBomb: map[int]string{}}
 	w.params = filtermaps.VerifParams(p.LogMapHeight, p.LogMapWidth, p.LogMapsPerEpoch, p.LogValuesPerMap, p.BaseRowGroupSize, p.BaseRowLengthRatio, p.LogLayerDiff)
 	for i, b := range p.Blocks {
 		if b.Parent >= i || b.Parent < -1 {
@@ -1471,6 +1488,7 @@ func Run(t *testing.T, pl any) *simcore.Result {
 						}
 					}
 					w.maxTarget = max(w.maxTarget, nh.number)
+					w.startedStale = false
 					w.fm.SetTarget(w.currentView(), 0, 0)
 					// quiescent point: an idle indexer picks the target up now, not in a real-time
 					// race with the next operation of this actor
@@ -1552,7 +1570,7 @@ func Checks() map[string]*simcore.Check {
 			"order in which the matcher's 4 worker goroutines pick up epoch tasks and Go map iteration order inside the matcher",
 			"index reads (ungated) between two gates of the same goroutine",
 		},
-		Runs:       map[string]int{"quick": 2400, "thorough": 60000},
+		Runs:       map[string]int{"quick": 1600, "thorough": 60000},
 		Gen:        Gen, Decode: Decode, Run: Run, Shrink: Shrink,
 		ProbeNames: []string{"queries", "query-nonempty-result", "query-index-behind-head", "query-tail-unindexed", "query-valid-range-trimmed", "query-unindexed-scan", "query-served-from-index-only", "query-match-all", "queries-before-target-delivery-after-reorg", "reorg", "reorg-depth>=8", "head-moved-backwards", "restart", "idle-tail-unindexed", "idle-tail-reindexed", "multi-epoch-index", "row-overflow", "indexer-switched-itself-off"},
 	}}
